@@ -1059,6 +1059,10 @@ ADDENDA["C17"] = ADDENDA.get("C17", "") + " timeout_with_mapper's mapper may be 
 for _p in ("C28", "C29", "C31", "C33", "C34", "C35", "C15", "C16", "C17", "C18", "C37", "C22"):
     ADDENDA[_p] = ADDENDA.get(_p, "") + (" The time conversions every due time goes through (Scheduler.to_seconds / to_timedelta / to_datetime, the contracts of "
                                          "C36) are re-proved inside this check.")
+for _p in ("C28", "C29"):
+    ADDENDA[_p] = ADDENDA.get(_p, "") + " Every store into the clock keeps the clock's representation (tick clock: a number, datetime clock: a datetime)."
+ADDENDA["C11"] = ADDENDA.get("C11", "") + (" The scenario 'a source notifies from inside its subscribe call' is also run inside the handlers of the inner "
+                                            "sequences (a completed inner starts the next queued one).")
 for _p, _t in ADDENDA.items():
     if _p in CHECKS:
         CHECKS[_p] = dict(CHECKS[_p], text=CHECKS[_p]["text"] + _t)
